@@ -2,7 +2,7 @@
 import math
 import numpy as np
 from props import _discrete as D
-from vlib.coqfmt import cfloat, clist, cbool
+from vlib.coqfmt import clist, cbool
 
 ENV_BY_TIER = {"quick": {"NUMBA_DISABLE_JIT": "1"}, "thorough": {}}
 COQ_REQ = ("lib.Num", "model.Discrete", "model.DiscreteFloat")
@@ -72,13 +72,13 @@ def units(ctx, model_ok):
             ctx.oracle_fail("logsumexp", "logsumexp(%r) = %r, log(sum(exp)) = %r" % (v, a, r), {"unit": "logsumexp", "x": v})
     if model_ok:
         body = "Eval vm_compute in map (logsumexp FNum neg_infinity fexp flog) %s.\n" % clist(vecs, D.cvec)
-        got = ctx.coq_eval(body, requires=COQ_REQ, tag="lse")[0]
+        got = ctx.coq_eval(D.PRELUDE + body, requires=COQ_REQ, tag="lse")[0]
         for v, a, b in zip(vecs, impl, got):
             ctx.corr("logsumexp", D.close(a, float(b), rtol=1e-12, log=True), "x=%r impl=%r model=%r" % (v, a, b),
                      {"unit": "logsumexp", "x": v, "impl": a, "model": b})
     # ---- triangular sums, ratio, index tables
     terms, expect = [], []
-    for _ in range(ctx.n(40, 300)):
+    for _ in range(ctx.n(25, 300)):
         G = rng.randint(2, 8)
         lin, log = lik_objects(G)
         tri = G * (G + 1) // 2
@@ -109,7 +109,7 @@ def units(ctx, model_ok):
             expect.append((P, G, arr, v, w, outs))
             ctx.case({"unit": "tri", "space": P, "G": G, "arr": arr[:6]}, nontrivial=True, kind="unit/tri/" + P)
     if model_ok:
-        got = ctx.coq_eval("Eval vm_compute in %s.\n" % clist(terms), requires=COQ_REQ, tag="tri")[0]
+        got = ctx.coq_eval(D.PRELUDE + "Eval vm_compute in %s.\n" % clist(terms), requires=COQ_REQ, tag="tri")[0]
         names = ["rowsum_lower_tri", "rowsum_upper_tri", "ratio(div_0_null)", "ratio", "make_lower_tri", "make_upper_tri"]
         for (P, G, arr, v, w, outs), res in zip(expect, got):
             for nm, a, b in zip(names, outs, res):
@@ -270,7 +270,7 @@ def oracle_case(ctx, case, stats):
 
 def run(ctx, model_ok=True):
     units(ctx, model_ok)
-    cases = gen_cases(ctx, ctx.n(20, 150), ctx.n(30, 200))
+    cases = gen_cases(ctx, ctx.n(12, 150), ctx.n(20, 200))
     # (b) whole runs, both classes against the model
     if model_ok:
         both = []
